@@ -101,13 +101,11 @@ def specSync (o : SyncOpt) (before after : List Snap) (view : List VEnt) : SpecV
       let r := entryMatches o evs before after view v a
       if !r.ok then return r
   -- hard-link groups: same inode iff same group
-  for v in view do
-    for w in view do
-      if !v.st.isDir && !w.st.isDir then
-        match findSnap after v.st.path, findSnap after w.st.path with
-        | some a, some b =>
-          if (groupOf v == groupOf w) != (a.ino == b.ino) then return ⟨false, "hard-link groups differ"⟩
-        | _, _ => pure ()
+  let gi : List (Path × Nat) := view.filterMap fun v =>
+    if v.st.isDir then none else (findSnap after v.st.path).map fun a => (groupOf v, a.ino)
+  for x in gi do
+    for y in gi do
+      if (x.1 == y.1) != (x.2 == y.2) then return ⟨false, "hard-link groups differ"⟩
   for a in after do
     if (findV view a.st.path).isNone then
       if !o.merge then return ⟨false, "destination has an entry the view does not have"⟩
